@@ -6,7 +6,17 @@ _FN = None
 
 
 def _call(chunk):
-    return [_FN(x) for x in chunk]
+    out = []
+    for x in chunk:
+        try:
+            out.append(_FN(x))
+        except (KeyboardInterrupt, SystemExit):
+            raise
+        except BaseException as exc:
+            # exceptions derived from BaseException would kill the worker
+            # and hang the pool
+            raise RuntimeError("worker failed: %r" % (exc,)) from None
+    return out
 
 
 def pmap(fn, items, procs=None, chunk=64):
